@@ -108,6 +108,7 @@ struct Run
    /// for the library that text is an entry, on disk it has no line of its own
    int              open_fragment = 0;
    int              blank_count = 0;
+   mutable bool     torn_border_before = false, torn_border_after = false;   // for explainTorn()
    uint64_t         sim_seconds = 0;
    size_t           over_long_from = 0;
    /// file name with a date part: every date has its own series of generations
@@ -403,6 +404,8 @@ struct Run
             if (lines[ j].id >= 0) { lower = lines[ j].id; break; }
          const long long  upper = (k + 1 < lines.size()) ? lines[ k + 1].id : static_cast< long long>( msgs.size());
          bool  bare = false;
+         torn_border_before = (k > 0) && (lines[ k - 1].gen / 1000 != l.gen / 1000);
+         torn_border_after = (k + 1 < lines.size()) && (lines[ k + 1].gen / 1000 != l.gen / 1000);
          l.id = explainTorn( l.text, lower, upper, !l.terminated, 0, bare);
          if (l.id < 0)
          {
@@ -464,6 +467,17 @@ struct Run
                           bool& bare) const
    {
       if (depth > 4) return -1;
+      // a bare fragment may be the beginning of several interrupted messages:
+      // the latest one is taken that leaves no acknowledged message unaccounted
+      // for between the neighbouring lines (at the border between the file series
+      // of two dates nothing has to be accounted for); if there is none, the latest
+      auto accountedFor = [ this]( long long lo, long long hi)
+      {
+         for (long long h = lo + 1; h < hi; ++h)
+            if (!msgs[ static_cast< size_t>( h)].may_be_missing && !msgs[ static_cast< size_t>( h)].crashed) return false;
+         return true;
+      };
+      long long  fallback = -1;
       for (long long m = before - 1; m > after; --m)
       {
          const Msg&  cm = msgs[ static_cast< size_t>( m)];
@@ -478,7 +492,10 @@ struct Run
                if (unterminated)
                {
                   bare = true;
-                  return m;
+                  if (depth > 0 || ((torn_border_before || accountedFor( after, m)) && (torn_border_after || accountedFor( m, before))))
+                     return m;
+                  if (fallback < 0) fallback = m;
+                  break;   // next candidate message
                }
                continue;
             }
@@ -490,7 +507,7 @@ struct Run
             if (deeper != -1) return deeper;
          }
       }
-      return -1;
+      return fallback;
    }
 
    /// strict step relation between the files before and after one operation
